@@ -19,7 +19,21 @@
    (adrp x16 / add x16 / br x16) -> final target, compared with the symbol's address in the output.
    ld.lld links the same inputs as a sanity oracle of the decoder.  A link that fails (or a branch
    that lands elsewhere) although a block position within range of the site exists is a violation.
+5. Non-primary executable parts (specs/ThunksParts.tla): the image = .plt.got / .init,.fini,custom-named
+   executable sections / over-aligned .text parts (all placed BEFORE the primary part, part ids below,
+   above, below the primary's) + the primary part + .text parts of alignment 1/2 (placed AFTER, ids
+   above).  The code's decision for a target outside the primary part (estimate N + caller end < R, N =
+   compute_non_primary_text_size) against the declarative requirement (true distance in the final layout
+   > real range => not "provably in range").  TLC: EstimateIsUpperBound / ServedBefore over all size
+   vectors x caller positions; estimates that count only the parts with smaller (or only larger) ids
+   are rejected; ServedAfter is rejected for the code as written (lead -> scenario target-after-primary,
+   a recorded finding).  Binding F: every size vector at 1 unit = 1 MiB into the real
+   compute_non_primary_text_size and the real output order (verif_api::aarch64_exec_parts): part ids and
+   sides as modelled, N >= the bytes really placed before the primary part.  Binding R/O: real links
+   with the target in a 4 MiB custom-named section, in .init, in a 64-byte aligned .text part, a
+   64 KiB control, and the target behind the primary part.
 """
+import concurrent.futures
 import struct
 
 from vlib import asm, elf, tlc
@@ -30,9 +44,9 @@ PROP = "C11"
 META = {
     "ready": True,
     "level": "model_checking",
-    "technique": "TLA+ state machine of thunk-block assignment exhaustively checked by TLC over scaled object sequences, every run replayed into the real assign_thunk_blocks in-process; end-to-end AArch64 links with >128 MiB paddings decoded statically (B/BL -> thunk -> target)",
-    "level_text": "Thunks.tla models assign_thunk_blocks step by step; TLC explores every sequence of up to 5 (quick) / 6-7 (thorough) objects over sizes 1..5 with a scaled range and checks block structure, that far pairs always get a thunk symbol, and reachability of the block from every site when objects are no longer than the slack; every explored run (thousands) is replayed into the real function with the same numbers and must give the identical (block, owner) assignment; real AArch64 links with callers and callees more than 128 MiB apart are decoded statically and every labelled branch must reach its symbol directly or through an adrp/add/br thunk.",
-    "level_note": "The end-to-end part is exploration (a few scenarios, no execution: no qemu); PLT/IFUNC targets and non-primary (over-aligned) callers are not generated in this round; thunk-block sizes are taken as 0 in the model (the slack is assumed to cover them); the model is scaled (R = 8/12), the real function is replayed with the same scaled numbers and, per scenario, with the real ones.",
+    "technique": "TLA+ state machine of thunk-block assignment exhaustively checked by TLC over scaled object sequences, every run replayed into the real assign_thunk_blocks in-process; TLA+ model of the non-primary executable parts (size, part id below/above, placed before/after the primary part) with the estimate-based thunk decision checked against true layout distance, every size vector replayed into the real compute_non_primary_text_size and output order; end-to-end AArch64 links with >128 MiB paddings decoded statically (B/BL -> thunk -> target)",
+    "level_text": "Thunks.tla models assign_thunk_blocks step by step; TLC explores every sequence of up to 5 (quick) / 6-7 (thorough) objects over sizes 1..5 with a scaled range and checks block structure, that far pairs always get a thunk symbol, and reachability of the block from every site when objects are no longer than the slack; every explored run (thousands) is replayed into the real function with the same numbers and must give the identical (block, owner) assignment. ThunksParts.tla models the executable image as four classes of non-primary parts (.plt.got; .init/.fini/custom-named; over-aligned .text; low-alignment .text) with sizes {0,2,5}, their part id relative to the primary part and their side in output order, plus the caller's object in the primary part: TLC checks on every configuration that the code's estimate (non-primary size + caller end) bounds the true distance to any target placed before the primary part and that a target farther than the real range is never declared in range, rejects estimates that count only smaller-id or only larger-id parts, and produces the counterexample for targets placed after the primary part; all 81 size vectors are replayed (1 unit = 1 MiB) into the real compute_non_primary_text_size and the real output-order computation (ids, sides, and N >= bytes really before the primary part). Real AArch64 links with callers and callees more than 128 MiB apart (callee in the primary part, in a 4 MiB custom-named executable section, in .init, in a 64-byte aligned .text part, in a 64 KiB custom section, and in an alignment-1 .text part behind the primary part, the caller's object ending 125 MiB into the primary part so that only a correct count of the non-primary bytes asks for the thunk) are decoded statically and every labelled branch must reach its symbol directly or through an adrp/add/br thunk.",
+    "level_note": "The end-to-end part is exploration (ten scenarios, seven of them in quick; no execution: no qemu); PLT/IFUNC targets are only covered as a size class of the estimate (no dynamic or IFUNC symbol is linked), callers in non-primary parts only by one thorough scenario (over-aligned caller) and not by the model (thunks.rs assumes the non-primary code fits within the range); provably_in_range itself is a closure and is not called in-process: its fallback is modelled (src_end < R) and exercised only through real links; thunk-block sizes are taken as 0 in the model (the slack is assumed to cover them); the model is scaled (R = 8/12, slack 2), the real functions are replayed with the same scaled numbers (assign_thunk_blocks) or at 1 unit = 1 MiB (compute_non_primary_text_size) and, per scenario, with the real ones.",
     "engine": "tlc",
 }
 EXPECTED_ACTIONS = ["First", "AssignPrev", "OpenNext", "AssignNext", "PlaceNext", "Finish"]
@@ -81,6 +95,88 @@ def model(ctx, cov):
     runs.append({"cfg": "mc/Thunks_servable.cfg", "violated_as_expected": s.violated, "trace_states": s.trace_states})
     cov["states"], cov["transitions"], cov["tlc_runs"] = states, trans, runs
     return records
+
+
+# ------------------------------------------------------------------------------------------------
+# ThunksParts: non-primary executable parts
+
+
+PARTS_BROKEN = (("broken_smaller", "ServedBefore"), ("broken_larger", "ServedBefore"), ("after", "ServedAfter"))
+
+
+def parts_tlc_start(pool):
+    """The four TLC runs over ThunksParts are independent of the Thunks ones: started first, they run
+    next to them (1-2 workers each; the work is the enumeration of initial states, which is serial)."""
+    futs = {"quick": pool.submit(tlc.run_tlc, "MCThunksParts", "mc/ThunksParts_quick.cfg", workers=2, timeout=600,
+                                 coverage=False)}
+    for cfg, _ in PARTS_BROKEN:
+        futs[cfg] = pool.submit(tlc.run_tlc, "MCThunksParts", f"mc/ThunksParts_{cfg}.cfg", workers=1, timeout=300,
+                                coverage=False)
+    return futs
+
+
+def parts_model_and_replay(ctx, cov, report, futs):
+    """TLC over ThunksParts (every size vector of the four classes of non-primary parts x caller
+    positions), the broken estimates must be rejected; every size vector is replayed into the real
+    compute_non_primary_text_size and the real output order (verif_api::aarch64_exec_parts)."""
+    r = futs["quick"].result()
+    if not r.ok:
+        raise ToolError(f"ThunksParts model check failed: {r.violated} {r.error_text}\n{r.trace_text[:2000]}")
+    runs = [{"cfg": "mc/ThunksParts_quick.cfg", **r.summary(), "records": len(r.records)}]
+    for cfg, inv in PARTS_BROKEN:
+        b = futs[cfg].result()
+        if b.ok or b.violated != inv:
+            raise ToolError(f"mc/ThunksParts_{cfg}.cfg: expected TLC to reject {inv}, got ok={b.ok} violated={b.violated} "
+                            f"{b.error_text}")
+        runs.append({"cfg": f"mc/ThunksParts_{cfg}.cfg", "violated_as_expected": b.violated})
+    cov["states"] += r.distinct
+    cov["transitions"] += r.generated
+    cov["tlc_runs"] += runs
+    if not r.records:
+        raise ToolError("ThunksParts: no REPLAY records")
+
+    # class -> real parts (section name, alignment exponent); which member of a class is used rotates
+    # with the seed and the record so that .init, .fini and custom-named sections, several over-alignments
+    # and both low alignments are all exercised
+    init_like = [(".init", 2), (".fini", 2), (".mytext", 2), ("fastcode", 4)]
+    reqs = []
+    for i, rec in enumerate(r.records):
+        k = i + ctx.seed
+        real = {"plt": (".plt.got", 0), "init": init_like[k % len(init_like)],
+                "hi": (".text", 3 + k % 4), "lo": (".text", k % 2)}
+        classes = [c for c in ("plt", "init", "hi", "lo") if rec["sizes"][c] > 0]
+        reqs.append({"parts": [[real[c][0], real[c][1], rec["sizes"][c] * MIB] for c in classes],
+                     "primary": 9 * MIB, "classes": classes})
+    res = run_conf("thunks", reqs, timeout=600)
+    for rec, q, got in zip(r.records, reqs, res):
+        if "panic" in got or "error" in got:
+            raise ToolError(f"aarch64_exec_parts failed on {q}: {got}")
+        order, prim = got["output_order"], got["primary_part"]
+        ppos = order.index(prim)
+        size_of = {pid: part[2] for pid, part in zip(got["part_ids"], q["parts"])}
+        real_before = sum(size_of[pid] for pid in order[:ppos])
+        for c, pid in zip(q["classes"], got["part_ids"]):
+            side_before = order.index(pid) < ppos
+            if side_before != rec["before"][c] or (pid < prim) != rec["id_below"][c]:
+                raise ToolError(f"ThunksParts no longer describes the code: class {c} ({q['parts']}) has part id {pid} "
+                                f"(primary {prim}) and is placed {'before' if side_before else 'after'} the primary part")
+        n = got["non_primary_text_size"]
+        if n < real_before:
+            missing = [c for c in q["classes"] if rec["before"][c]]
+            report("non-primary-size:below-size-before-primary",
+                   f"compute_non_primary_text_size = {n} for parts {q['parts']} although {real_before} bytes of executable "
+                   f"parts are placed before the primary part in the real output order {order} (primary part {prim}): "
+                   f"the distance to a target in {missing} is under-estimated by up to {real_before - n} bytes, "
+                   "ThunksParts.tla rejects such an estimate (ServedBefore): a branch that needs a thunk is declared in range",
+                   {"request": q, "got": got, "model": rec,
+                    "how": "echo '<request>' | .cache/target-conf/release/wildconf thunks"})
+            break
+        if n != rec["N"] * MIB:
+            raise ToolError(f"compute_non_primary_text_size({q['parts']}) = {n}, model (Counted = all): {rec['N'] * MIB}: "
+                            "the specification no longer describes the function")
+    cov["parts_vectors_replayed"] = len(reqs)
+    cov["samples"].append({"parts_record": r.records[len(r.records) // 2], "real": res[len(r.records) // 2]})
+    return len(reqs)
 
 
 # ------------------------------------------------------------------------------------------------
@@ -173,15 +269,66 @@ def scenario_sources(name):
                   f"    bl far\n    ret\n    .skip {126 * MIB - 8}\n")
         return ([("s0", start, 16), ("s1", caller, 126 * MIB), ("s2", pad(10 * MIB), 10 * MIB), ("s3", far, 4)],
                 [("site_start_caller", "caller"), ("site_caller_far", "far")])
+    if name in PART_SCENARIOS:
+        # ThunksParts.tla at real scale: the TARGET lives in a non-primary executable part of `np` bytes
+        # (class: id above/below the primary part's, placed before/after it); the caller's object ends
+        # `pad` + 24 bytes into the primary part.
+        sect, np, padn, _cls = PART_SCENARIOS[name]
+        tgt = (f"    {sect}\n    .globl far\n    .type far, %function\nfar:\n    ret\n"
+               + (f"    .skip {np - 4}\n" if np > 4 else ""))
+        caller = ("    .text\n    .globl caller\n    .type caller, %function\ncaller:\nsite_caller_far:\n"
+                  "    bl far\n    ret\n")
+        if _cls == "lo":
+            start_far = ("    .text\n    .globl _start\n    .type _start, %function\n_start:\nsite_start_far:\n"
+                         "    bl far\n    mov x8, #93\n    mov x0, #0\n    svc #0\n")
+            return ([("s0", start_far, 16), ("s1", pad(padn), padn), ("s2", tgt, 0)], [("site_start_far", "far")])
+        return ([("s0", tgt + start, 16), ("s1", pad(padn), padn), ("s2", caller, 8)],
+                [("site_start_caller", "caller"), ("site_caller_far", "far")])
     raise ToolError(name)
 
 
-def run_scenario(ctx, name, cov, report):
+# name -> (section directive of the target, size of that non-primary part, primary padding between _start
+# and the caller, ThunksParts class).  With np = 4 MiB and pad = 125 MiB the caller ends 125 MiB into the
+# primary part: the site is 129 MiB from the target (> 128 MiB: a thunk is needed), the estimate that
+# counts the part says 129 MiB >= 126 MiB (thunk symbol collected), an estimate that forgets the part
+# says 125 MiB < 126 MiB ("provably in range": link error).
+PART_SCENARIOS = {
+    "custom-exec-target": ('.section .mytext,"ax",%progbits\n    .p2align 2', 4 * MIB, 125 * MIB, "init"),
+    "init-target": ('.section .init,"ax",%progbits\n    .p2align 2', 4 * MIB, 125 * MIB, "init"),
+    "fini-target": ('.section .fini,"ax",%progbits\n    .p2align 2', 3 * MIB, 125 * MIB + 512 * 1024, "init"),
+    "overaligned-text-target": ('.section .text.al64,"ax",%progbits\n    .p2align 6', 4 * MIB, 125 * MIB, "hi"),
+    "small-custom-control": ('.section .mytext,"ax",%progbits\n    .p2align 2', 64 * 1024, 128 * MIB, "init"),
+    # the shape of TLC's ServedAfter counterexample: the target in a .text part of alignment 1, which is
+    # placed AFTER the primary part; the caller is the first object
+    "target-after-primary": ('.section .text.lo,"ax",%progbits', 4, 130 * MIB, "lo"),
+}
+
+
+def parts_model(name):
+    """ThunksParts.tla's definitions on the real numbers of a PART_SCENARIOS entry."""
+    _sect, np, padn, cls = PART_SCENARIOS[name]
+    before = np if cls != "lo" else 0
+    n_all = np                                   # compute_non_primary_text_size as written counts every part
+    if cls == "lo":
+        cs, ce, true_dist = 0, 16, 16 + padn          # site at primary offset 0, target right behind the primary part
+    else:
+        cs, ce = 16 + padn, 16 + padn + 8
+        true_dist = before + cs
+    return {"class": cls, "non_primary_size": np, "before": before, "N": n_all, "caller": [cs, ce],
+            "src_end": n_all + ce, "provably_in_range": n_all + ce < R_REAL, "true_distance": true_dist,
+            "needs_thunk": true_dist > REAL_RANGE,
+            "served_by_estimate": not (true_dist > REAL_RANGE and n_all + ce < R_REAL)}
+
+
+def run_scenario(ctx, name, cov, report, use_lld=True):
     files, sites = scenario_sources(name)
-    analysis = reach_analysis([sz for _, _, sz in files])
+    pm = parts_model(name) if name in PART_SCENARIOS else None
+    analysis = reach_analysis([sz for _, _, sz in files], base=pm["before"] if pm else 0)
     info = {"scenario": name, "sizes": [sz for _, _, sz in files], "num_blocks": analysis["num_blocks"],
             "final": analysis["final"],
             "model_reach": [(p["obj"], p["reach"], p["servable"]) for p in analysis["per_object"]]}
+    if pm:
+        info["parts_model"] = pm
     with scratch("c11") as d:
         objs = []
         for stem, text, _ in files:
@@ -190,11 +337,11 @@ def run_scenario(ctx, name, cov, report):
             objs.append(asm.assemble(p, arch="aarch64"))
         args = ["-m", "aarch64linux"] + [o.name for o in objs] + ["--no-gc-sections", "-o"]
         rw = run_wild(args + ["out.wild"], cwd=d, timeout=900)
-        rl = asm.lld(args + ["out.lld"], cwd=d, timeout=900)
+        rl = asm.lld(args + ["out.lld"], cwd=d, timeout=900) if use_lld else None
         for o in objs:                       # large scratch: delete at once
             o.unlink()
         info["wild"] = {"rc": rw.rc, "timed_out": rw.timed_out, "err": rw.err.strip()[-400:]}
-        if rl.rc != 0:
+        if rl is not None and rl.rc != 0:
             raise ToolError(f"ld.lld could not link scenario {name}: {rl.err[-400:]}")
 
         def decode(path):
@@ -207,21 +354,33 @@ def run_scenario(ctx, name, cov, report):
                             "final": final, "steps": steps, "ok": final == syms[target]})
             return res
 
-        lres = decode(d / "out.lld")
-        (d / "out.lld").unlink()
-        if not all(r["ok"] for r in lres):
-            raise ToolError(f"decoder sanity failed on ld.lld's output of {name}: {lres}")
+        if rl is not None:
+            lres = decode(d / "out.lld")
+            (d / "out.lld").unlink()
+            if not all(r["ok"] for r in lres):
+                raise ToolError(f"decoder sanity failed on ld.lld's output of {name}: {lres}")
+            info["lld_sites_ok"] = len(lres)
         unreachable_by_model = [p for p in analysis["per_object"] if not p["reach"] and p["servable"]]
         sources = {f"{stem}.s": text for stem, text, _ in files}
-        meta = {"scenario": name, "args": args + ["out"], "analysis": analysis["per_object"], "wild": info["wild"],
+        meta = {"scenario": name, "args": args + ["out"], "analysis": analysis["per_object"], "wild": info["wild"], "parts_model": pm,
                 "note": "objects are `.skip` paddings: assemble with clang --target=aarch64-linux-gnu -c"}
         if rw.timed_out:
             report(f"{name}:hang", f"wild did not terminate on scenario {name}", meta, sources)
         elif rw.rc != 0:
             info["wild_sites"] = None
             servable = all(p["servable"] for p in analysis["per_object"])
-            if servable:
-                kind = "branch-out-of-range" if ("outside of bounds" in rw.err or "out of range" in rw.err) else "link-failed"
+            if pm:      # only the object with the far call matters (the paddings contain no branch)
+                servable = analysis["per_object"][0 if pm["class"] == "lo" else -1]["servable"]
+            kind = "branch-out-of-range" if ("outside of bounds" in rw.err or "out of range" in rw.err) else "link-failed"
+            if servable and pm:
+                report(f"{name}:{kind}",
+                       f"wild fails to link scenario {name}: the call to `far` (in a non-primary executable part, class "
+                       f"{pm['class']}, {pm['non_primary_size']} bytes) is {pm['true_distance']} bytes from its site, the "
+                       f"caller's object has thunk block positions within +-128 MiB, so a thunk could serve it"
+                       f"{'; ld.lld links it' if rl is not None else ''}. Estimate as thunks.rs is written: src_end = "
+                       f"{pm['src_end']}, provably_in_range = {pm['provably_in_range']}. wild: {rw.err.strip()[-220:]}",
+                       meta, sources)
+            elif servable:
                 report(f"{name}:{kind}",
                        f"wild fails to link scenario {name} although every site has a block position within "
                        f"+-128 MiB (model: objects {[p['obj'] for p in unreachable_by_model]} are assigned a block "
@@ -243,7 +402,12 @@ def run_scenario(ctx, name, cov, report):
 
 def run(ctx):
     cov = {"samples": []}
-    records = model(ctx, cov)
+    pool = concurrent.futures.ThreadPoolExecutor(max_workers=4)
+    parts_futs = parts_tlc_start(pool)
+    try:
+        records = model(ctx, cov)
+    finally:
+        pool.shutdown(wait=True)
     log(f"C11: {len(records)} completed runs exported by TLC")
 
     def report(key, text, meta, files=None):
@@ -267,16 +431,24 @@ def run(ctx):
                        f"model: {rec['num_blocks']} blocks {want_final}",
                        {"request": q, "got": got, "model": rec,
                         "how": "echo '<request>' | .cache/target-conf/release/wildconf thunks"})
-    cov["traces_validated_against_impl"] = len(records)
     cov["samples"].append({"tlc_run": records[len(records) // 2], "real": res[len(records) // 2]})
+    nparts = parts_model_and_replay(ctx, cov, report, parts_futs)
+    cov["traces_validated_against_impl"] = len(records) + nparts
+    log(f"C11: {nparts} non-primary part size vectors replayed into compute_non_primary_text_size")
 
     # ---- end to end
     build_wild()
-    names = ["far-call-forward", "large-object-after-caller"]
+    # ld.lld (about 20 s per link) is the decoder's sanity oracle on the first scenario; the others are only
+    # linked by wild in the quick tier (thorough: every scenario is also linked by ld.lld)
+    names = ["far-call-forward", "large-object-after-caller", "custom-exec-target", "init-target",
+             "overaligned-text-target", "small-custom-control", "target-after-primary"]
+    with_lld = {"far-call-forward"}
     if not ctx.quick:
         names[1:1] = ["far-call-backward", "non-primary-caller"]
+        names.append("fini-target")
+        with_lld = set(names)
     for n in names:
-        info = run_scenario(ctx, n, cov, report)
+        info = run_scenario(ctx, n, cov, report, use_lld=n in with_lld)
         log(f"C11: scenario {n}: wild rc={info['wild']['rc']} blocks={info['num_blocks']}")
     cov["e2e_links"] = len(names)
     cov["samples"].append({"e2e": {k: v for k, v in cov["e2e"][0].items() if k != "final"}})
@@ -288,6 +460,7 @@ def run(ctx):
             "thunk blocks have size 0 in the model; the 2 MiB slack is assumed to cover the blocks that layout inserts",
             "scaled model (R = 8/12, slack 2); the real function is replayed with exactly these numbers, and with the real range on the end-to-end scenarios",
             "end-to-end outputs are decoded statically, not executed (no qemu); only labelled branch sites are followed",
-            "non-primary (over-aligned) callers, PLT and IFUNC targets are not generated in this round",
+            "ThunksParts: four classes of non-primary executable parts as read off part_id.rs / elf.rs build_output_order_and_program_segments (checked against the real output order in-process); inside a class the target may be anywhere, the caller is in the primary part",
+            "dynamic (PLT) and IFUNC targets are not linked end to end; callers in non-primary parts only in the thorough scenario non-primary-caller",
         ],
     }
